@@ -54,6 +54,8 @@ def entity_xml(e, src, facts, keys, valid_until=None, evil=False):
                   'FriendlyName="givenName" isRequired="true"/>'
                   '<md:RequestedAttribute Name="urn:oid:0.9.2342.19200300.100.1.3" '
                   'NameFormat="urn:oasis:names:tc:SAML:2.0:attrname-format:uri" FriendlyName="mail"/>'
+                  '<md:RequestedAttribute Name="urn:oid:2.5.4.12" NameFormat="urn:oasis:names:tc:SAML:2.0:attrname-format:uri" '
+                  'FriendlyName="title" isRequired="false"/>'
                   '</md:AttributeConsumingService>')
         x += '</md:%s>' % TAG[role]
     return x + '</md:EntityDescriptor>'
@@ -154,6 +156,13 @@ def replay(case):
             elif a['q'] == 'certs':
                 r = mds.certs(e, a['role'], a['use'])
                 obs = {'r': 'set', 'v': sorted(set(keyname(c) for c in r))}
+            elif a['q'] == 'attrreq':
+                r = mds.attribute_requirement(e)
+                if r is None:
+                    obs = {'r': 'none'}
+                else:
+                    obs = {'r': 'attrs', 'req': sorted(x.get('friendly_name') or x.get('name') for x in r['required']),
+                           'opt': sorted(x.get('friendly_name') or x.get('name') for x in r['optional'])}
             else:
                 r = mds.entity_categories(e)
                 obs = {'r': 'set', 'v': sorted(CAT_REV.get(c, c) for c in r)}
@@ -169,8 +178,9 @@ def replay(case):
 
 def norm(x):
     x = dict(x)
-    if 'v' in x:
-        x['v'] = sorted(x['v'])
+    for k in ('v', 'req', 'opt'):
+        if k in x:
+            x[k] = sorted(x[k])
     return x
 
 
@@ -247,7 +257,7 @@ def main():
     chk.cov['exhaustive'] = True
     chk.cov['rule'] = ('all scenarios of MdStore.tla (validUntil of document and entity absent / future / past / past written with a numeric offset x signature none/valid/'
                       'invalid/wrapped x verification certificate configured x duplicate declaration in a second source x load order), '
-                      'each with every query of the universe (5 services x 3 bindings, certs x 4 roles x 2 uses, entity categories; 4 '
+                      'each with every query of the universe (5 services x 3 bindings, certs x 4 roles x 2 uses, entity categories, attribute requirements; 4 '
                       'entities incl. an unknown one); distinct = distinct (scenario, query)')
     chk.assumptions = list(fw.TOOL_ASSUMPTIONS) + ['remote sources are served by a fake HTTP object handed to the store']
     sb.cleanup()
